@@ -488,7 +488,9 @@ class HistogramND(HistogramBase):
         # TODO: inplace
         new_one = self.copy()
         axis_id = self._get_axis(axis)
-        new_one._frequencies = np.cumsum(new_one.frequencies, axis_id)
+        new_one._frequencies = new_one._adopt_values(
+            np.cumsum(new_one.frequencies, axis_id)
+        )
         return new_one
 
     def projection(self, *axes: Axis, **kwargs) -> HistogramBase:
